@@ -45,6 +45,34 @@ def small_eval(e, env):
     raise AnalysisError(f"axis permutation expression outside the fragment: {unparse(e)}")
 
 
+
+def qr_shortcut_rule(chk, src):
+    """the `skip the QR` shortcut of _decompose_qr sets q = gamma, r = [[1]], p = [0]: shapes agree with q (R x K), r (K x C), p (C) only if gamma has one column"""
+    from ..syminterp import SymInterp, Sym
+    fi = src.func(SYM, "_decompose_qr")
+    ifs = [n for n in ast.walk(fi.node) if isinstance(n, ast.If) and "gamma" in unparse(n.test) and any("linalg.qr" in unparse(x) for x in n.body + n.orelse)]
+    if len(ifs) != 1:
+        raise AnalysisError(f"{fi.where}: QR / shortcut branch not found")
+    node = ifs[0]
+    qr_in_body = any("linalg.qr" in unparse(x) for x in node.body)
+    short = node.orelse if qr_in_body else node.body
+    asg = {unparse(s_.targets[0]): unparse(s_.value).replace(" ", "") for s_ in short if isinstance(s_, ast.Assign)}
+    shape_ok = asg.get("q") == "gamma" and asg.get("r") in ("np.array([1]).reshape(1,1)", "np.ones((1,1))") and asg.get("p") == "np.array([0])"
+    chk.ob("qr-shortcut-shape", "shortcut branch is q = gamma, r = [[1]], p = [0]", shape_ok, fi.where, asg, {"q": "gamma", "r": "1 x 1", "p": "[0]"}, line=node.lineno,
+           detail="the shortcut's shapes were re-derived for q = gamma (K = number of columns), r of shape (1, 1), p of length 1")
+    it = SymInterp(src, None, {})
+    bad = []
+    for r_ in (1, 2, 3, 7):
+        for c_ in (1, 2, 3, 7):
+            t = bool(it.ev(node.test, {"gamma": Sym("gamma", shape=(r_, c_), ndim=2)}))
+            takes_short = (not t) if qr_in_body else t
+            if takes_short and c_ != 1:
+                bad.append(f"gamma of shape ({r_}, {c_}) takes the shortcut")
+    chk.ob("qr-shortcut-shape", "shortcut taken only for a single-column coefficient matrix", not bad, fi.where, bad[:3] or "16 shapes", "shortcut => gamma.shape[1] == 1", line=node.lineno,
+           detail="with more than one column r = [[1]] drops every column but the first: all terms whose right part is not the first unique right operator are lost "
+                  "(single left operator times several right operators, e.g. a one-site operator coupled to many sites): " + (bad[0] if bad else ""))
+
+
 def run(chk):
     src = chk.src
     chk.explanation = (
@@ -62,6 +90,8 @@ def run(chk):
     chk.rule("narrow-cast", "uint16 construction from a computed count is guarded by an assert against iinfo(uint16).max", 3)
     chk.rule("factor-dtype", "arrays receiving factor-derived values do not have a fixed real dtype", 2)
     chk.rule("layout", "site tensor layout (left, row, column, right): builder permutation, dense readers, symbolic matrix indexing", 5)
+    chk.rule("qr-shortcut-shape", "_decompose_qr: the branch that skips the QR factorisation is shape-consistent and guarded by `one column`", 2)
+    qr_shortcut_rule(chk, src)
     chk.rule("split-order", "Op.split_elementary keeps intra-site symbol order, sites ascending; duplicates merged by summing factors", 4)
     s = sp.Symbol("s")
     # ---- offset
